@@ -360,15 +360,87 @@ PROGRAM_SETS = [
 EPILOGUE = [("L", "a"), ("L", "b"), ("L", "ab"), ("C",), ("S", "")]
 
 
-def run_programs(policy, init, programs):
+def wrapped_storage_class(nameserver):
+    """a storage provider that is NOT a dict (the name server accepts any MutableMapping with the storage API): it keeps
+    its entries in an inner MemoryStorage and forwards everything; the lock discipline must not depend on the storage type"""
+    import collections.abc
+
+    class WrappedStorage(collections.abc.MutableMapping):
+        def __init__(self):
+            self.inner = nameserver.MemoryStorage()
+
+        def __getitem__(self, k):
+            return self.inner[k]
+
+        def __setitem__(self, k, v):
+            self.inner[k] = v
+
+        def __delitem__(self, k):
+            del self.inner[k]
+
+        def __contains__(self, k):
+            return k in self.inner
+
+        def __len__(self):
+            return len(self.inner)
+
+        def __iter__(self):
+            return iter(self.inner)
+
+        def keys(self):
+            return self.inner.keys()
+
+        def items(self):
+            return self.inner.items()
+
+        def values(self):
+            return self.inner.values()
+
+        def copy(self):
+            return self.inner.copy()
+
+        def optimized_prefix_list(self, prefix, return_metadata=False):
+            return None
+
+        def optimized_regex_list(self, regex, return_metadata=False):
+            return None
+
+        def optimized_metadata_search(self, metadata_all=None, metadata_any=None, return_metadata=False):
+            return None
+
+        def everything(self, return_metadata=False):
+            if return_metadata:
+                return self.copy()
+            return {name: uri for name, (uri, metadata) in self.items()}
+
+        def remove_items(self, items):
+            for item in items:
+                if item in self:
+                    del self[item]
+
+        def close(self):
+            pass
+    return WrappedStorage
+
+
+def run_programs(policy, init, programs, wrapped=False):
     """one controlled execution on the real NameServer; returns (sched, outcome)"""
     from Pyro5 import nameserver
     sc = S.Sched(policy)
-    cls = S.instrument_class(sc, nameserver.MemoryStorage, "storage", STORAGE_POINTS)
-    ns = nameserver.NameServer(cls())
-    for n, u in init.items():
-        dict.__setitem__(ns.storage, n, (uri_of(u), frozenset()))
-    ns.lock = S.ILock(sc, "ns.lock", reentrant=True)
+    if wrapped:
+        cls = S.instrument_class(sc, wrapped_storage_class(nameserver), "storage", STORAGE_POINTS)
+        ns = nameserver.NameServer(cls())
+        for n, u in init.items():
+            dict.__setitem__(ns.storage.inner, n, (uri_of(u), frozenset()))
+    else:
+        cls = S.instrument_class(sc, nameserver.MemoryStorage, "storage", STORAGE_POINTS)
+        ns = nameserver.NameServer(cls())
+        for n, u in init.items():
+            dict.__setitem__(ns.storage, n, (uri_of(u), frozenset()))
+    # the scheduler's lock takes the place of the name server's own lock object - of the same kind: re-entrant iff the real
+    # one is, and no lock at all when the name server chose to have none (then only the storage operations are yield points)
+    if hasattr(ns.lock, "acquire") and hasattr(ns.lock, "release"):
+        ns.lock = S.ILock(sc, "ns.lock", reentrant=type(ns.lock) is type(threading.RLock()))
     results = [[None] * len(p) for p in programs]
 
     def mk(i, prog):
@@ -389,7 +461,7 @@ def run_programs(policy, init, programs):
             results[0][0] = "EXC:listing-changed-after-return(%s -> %s)" % (text, now)
     del KEPT[:]
     listing = tuple(sorted((n, int(v[0].split(":")[1].split("@")[0][3:]), tuple(sorted(int(m[1:]) for m in (v[1] or ()))))
-                           for n, v in dict.items(ns.storage)))
+                           for n, v in dict.items(ns.storage.inner if wrapped else ns.storage)))
     if outcome == "ok":
         ns.lock = threading.RLock()          # the scheduler is gone; the epilogue runs on the plain object
         listing = (listing, tuple(real_do(ns, op) for op in EPILOGUE))
@@ -421,7 +493,7 @@ def sequential_outcomes(init, programs):
     return outs
 
 
-def _explore_set(ctx, init, programs, bound, max_runs, rng, nrandom):
+def _explore_set(ctx, init, programs, bound, max_runs, rng, nrandom, wrapped=False):
     allowed = sequential_outcomes(init, programs)
     found = False
 
@@ -443,17 +515,17 @@ def _explore_set(ctx, init, programs, bound, max_runs, rng, nrandom):
         if bad and not found:
             found = True
             kinds = sorted({op[0] for p in programs for op in p})
-            ctx.fail("ns-race:" + bad[0] + ":" + "".join(kinds), "%s; programs %r on initial map %r, schedule %r"
-                     % (bad[1], programs, init, [t for t, _ in sc.trace]),
-                     {"init": init, "programs": programs, "schedule": [t for t, _ in sc.trace]})
+            ctx.fail("ns-race:" + bad[0] + ":" + "".join(kinds), "%s; programs %r on initial map %r%s, schedule %r"
+                     % (bad[1], programs, init, " (storage provider that is not a dict)" if wrapped else "", [t for t, _ in sc.trace]),
+                     {"init": init, "programs": programs, "schedule": [t for t, _ in sc.trace], "wrapped": wrapped})
         return bad
-    for prefix, sc, out in S.explore(lambda pol: run_programs(pol, init, programs), bound, max_runs):
+    for prefix, sc, out in S.explore(lambda pol: run_programs(pol, init, programs, wrapped), bound, max_runs):
         if judge(prefix, sc, out) and not ctx.search_mode:
             return
         if len(ctx.samples) < 4 and len(sc.trace) > 6 and rng.random() < 0.02:
             ctx.sample({"programs": programs, "init": init, "schedule": [t for t, _ in sc.trace], "results": out[1]})
     for _ in range(nrandom):
-        sc, out = run_programs(S.random_policy(rng, 0.5), init, programs)
+        sc, out = run_programs(S.random_policy(rng, 0.5), init, programs, wrapped)
         if judge(None, sc, out) and not ctx.search_mode:
             return
 
@@ -468,7 +540,7 @@ def _interleaved(ctx):
         for f in sorted(os.listdir(corpus)):
             c = json.load(open(os.path.join(corpus, f)))
             progs = [[tuple(o) for o in p] for p in c["programs"]]
-            sc, out = run_programs(S.replay_policy(c["schedule"]), c["init"], progs)
+            sc, out = run_programs(S.replay_policy(c["schedule"]), c["init"], progs, bool(c.get("wrapped")))
             ctx.evaluations += 1
             if (out[1], out[2]) not in sequential_outcomes(c["init"], progs) or out[0] != "ok" or \
                     any(isinstance(r, str) and r.startswith("EXC:") for rs in out[1] for r in rs):
@@ -480,8 +552,11 @@ def _interleaved(ctx):
         nthreads = rng.choice([2, 2, 3])
         progs = [[gen_op(rng) for _ in range(rng.choice([1, 1, 2]))] for _ in range(nthreads)]
         sets.append((init, progs))
-    for init, programs in sets:
+    for k, (init, programs) in enumerate(sets):
         _explore_set(ctx, init, programs, bound, max_runs, rng, ctx.n(30, 400))
+        if k % 4 == 0:
+            # the same programs on a storage provider that is not a dict
+            _explore_set(ctx, init, programs, bound, max(20, max_runs // 3), rng, ctx.n(10, 100), wrapped=True)
 
 
 def correspondence(ctx):
@@ -502,7 +577,7 @@ def replay(ctx, case):
         return 1
     common.repo_on_path()
     progs = [[tuple(o) for o in p] for p in c["programs"]]
-    sc, out = run_programs(S.replay_policy(c["schedule"]), c["init"], progs)
+    sc, out = run_programs(S.replay_policy(c["schedule"]), c["init"], progs, bool(c.get("wrapped")))
     allowed = sequential_outcomes(c["init"], progs)
     print("programs", progs, "init", c["init"], "schedule", c["schedule"])
     print("outcome", out)
